@@ -1,6 +1,8 @@
 package main
 
 import (
+	"fmt"
+	"go/types"
 	"os"
 	"path/filepath"
 	"regexp"
@@ -133,6 +135,74 @@ func init() {
 			Stubs: []string{"pgregory.net/rapid generators -> opaque descriptions; Draw -> fresh symbol constrained to the generator's documented range", "rapid.T.Fatalf / gotest.tools assert -> generator failure (violation)", "protoreflect Message/List/Descriptor arguments -> harness-level recorder stubs", "fmt.Sprintf -> opaque string", "protoimpl.X.NewError -> opaque error"},
 		}, nil
 	}
+}
+
+func init() {
+	specs["C13"] = func(tier string) (*Plan, error) {
+		u1 := staticUnit("generator", "generator", "generator_c13.go.txt")
+		u2 := staticUnit("features/fastreflection", "fastreflection", "fastreflection_c13.go.txt")
+		mr, err := mapRangeInventory()
+		if err != nil {
+			return nil, err
+		}
+		return &Plan{
+			LoadDir:  repoDir,
+			Patterns: []string{"./generator", "./features/fastreflection"},
+			Units:    []*Unit{u1, u2},
+			Regex:    "^VH_C13_",
+			Cfg:      sym.Config{MaxLoop: 40},
+			Bounds: map[string]string{
+				"claimed":     "order-insensitivity of every range-over-map in the generator's own packages: findFeatures (<= 3 requested names out of {a,b,c,all,unknown}, 3 registered features) and the message-index scan of generateReflectionType (3 messages with symbolic distinct full names of <= 2 bytes and arbitrary short names of <= 1 byte), each under every iteration order",
+				"inventory":   "the set of map-range sites is recomputed from SSA on every run; a site that no harness covers makes the check INCONCLUSIVE",
+				"not claimed": "byte-identity across fresh processes, independence from co-generated files and their order, absence of timestamps/paths/environment text (whole-program facts about string templating; observing them is differential execution, a different technique)",
+			},
+			Extra: map[string]interface{}{"map_range_sites": mr},
+			Stubs: []string{"protogen/protoreflect descriptors -> harness-level Go stubs", "sort.Slice -> insertion sort driving the real comparison"},
+		}, nil
+	}
+}
+
+// mapRangeInventory lists every range-over-map instruction in the generator's packages
+// and fails if one is not in the covered set.
+func mapRangeInventory() ([]string, error) {
+	l, err := sym.Load(repoDir, []string{"./cmd/protoc-gen-go-pulsar", "./generator", "./features/fastreflection", "./features/fastreflection/copied", "./features/protoc"}, nil, os.Environ())
+	if err != nil {
+		return nil, err
+	}
+	covered := map[string]bool{
+		"github.com/cosmos/cosmos-proto/generator.findFeatures":                                                      true,
+		"(*github.com/cosmos/cosmos-proto/features/fastreflection.fastGenerator).generateReflectionType$1":          true,
+	}
+	var sites []string
+	var bad []string
+	for _, p := range l.SSA {
+		if p == nil {
+			continue
+		}
+		for fn := range sym.AllFunctions(l.Prog) {
+			if fn.Pkg != p && (fn.Parent() == nil || fn.Parent().Pkg != p) {
+				continue
+			}
+			for _, b := range fn.Blocks {
+				for _, in := range b.Instrs {
+					if r, ok := in.(*ssa.Range); ok {
+						if _, isMap := r.X.Type().Underlying().(*types.Map); isMap {
+							site := fn.String()
+							sites = append(sites, site)
+							if !covered[site] {
+								bad = append(bad, site)
+							}
+						}
+					}
+				}
+			}
+		}
+	}
+	sort.Strings(sites)
+	if len(bad) > 0 {
+		return sites, fmt.Errorf("unclassified map iteration in generator code: %v", bad)
+	}
+	return sites, nil
 }
 
 func packageInitHook(e *sym.Exec, pkg *ssa.Package) {
